@@ -1,4 +1,5 @@
 import E3fpVerif.Model.Db
+import E3fpVerif.Props.C05
 /-!
 # C16 — a database refuses incompatible input atomically
 
@@ -90,5 +91,374 @@ example :
     let db := (Db.new .bit 0 none).addOk [⟨f, some "a", []⟩]
     (db.add [⟨f, some "b", []⟩, ⟨g, some "c", []⟩]).2 = some .value ∧
       (db.add [⟨f, some "b", []⟩, ⟨g, some "c", []⟩]).1 = db := by decide
+
+/-! ## `concat`
+
+`Db.concat` takes its operands by value and returns a new database (or an error): the operands
+are unchanged by construction, so a refusal is trivially atomic.  What remains to be said is
+*when* it refuses. -/
+
+/-- the property keys of a concatenation: every key of every operand, in order of first occurrence -/
+def concatKeys (dbs : List Db) : List String :=
+  dbs.foldl (fun acc d => d.props.foldl (fun acc2 c => if acc2.contains c.1 then acc2 else acc2 ++ [c.1]) acc)
+    ([] : List String)
+
+/-- the rows of a concatenation: the rows of the operands, in order -/
+def concatRows (dbs : List Db) : List Row := dbs.flatMap (fun d => d.array.getD [])
+
+/-- the column a concatenation builds for key `k`: the operands' columns (nothing for an operand
+without the key), in order -/
+def concatCol (dbs : List Db) (k : String) : List PVal := dbs.flatMap (fun d => (colLookup d.props k).getD [])
+
+/-- the checks of `concat`, as one decision: which error, if any -/
+theorem concat_eq (d0 : Db) (rest : List Db) :
+    Db.concat (d0 :: rest) =
+      if (d0 :: rest).any (fun d => d.level != d0.level) then .error .type
+      else if (d0 :: rest).any (fun d => (d.array.map (fun _ => d.bits)) != (d0.array.map (fun _ => d0.bits))) then .error .type
+      else if (d0 :: rest).any (fun d => d.fpType != d0.fpType) then .error .type
+      else if (d0 :: rest).any (fun d => d.array.isNone) then .error .other
+      else if (concatKeys (d0 :: rest)).any (fun k => decide ((concatCol (d0 :: rest) k).length ≠ (concatRows (d0 :: rest)).length))
+        then .error .value
+      else .ok { fpType := d0.fpType, level := d0.level, name := none, array := some (concatRows (d0 :: rest)),
+                 bits := d0.bits, fpNames := (d0 :: rest).flatMap (·.fpNames),
+                 namesMap := updateNamesMap [] ((d0 :: rest).flatMap (·.fpNames)) 0,
+                 props := (concatKeys (d0 :: rest)).map (fun k => (k, concatCol (d0 :: rest) k)) } := by
+  simp only [Db.concat, concatKeys, concatRows, concatCol, List.any_map, Function.comp_def]
+  rfl
+
+/-- **`concat` refuses a non-empty list of databases exactly when** some operand has a different
+level, some operand has no matrix yet, some operand has a different length or a different kind, or
+the operands' property columns do not add up to the number of rows (a key missing from an operand
+that has rows, or an operand whose column is not as long as its matrix) -/
+theorem concat_refuses (d0 : Db) (rest : List Db) :
+    (∃ e, Db.concat (d0 :: rest) = .error e) ↔
+      (∃ d ∈ d0 :: rest, d.level ≠ d0.level) ∨
+      (∃ d ∈ d0 :: rest, d.array = none) ∨
+      (∃ d ∈ d0 :: rest, d.bits ≠ d0.bits) ∨
+      (∃ d ∈ d0 :: rest, d.fpType ≠ d0.fpType) ∨
+      (∃ k ∈ concatKeys (d0 :: rest), (concatCol (d0 :: rest) k).length ≠ (concatRows (d0 :: rest)).length) := by
+  rw [concat_eq]
+  generalize hdbs : d0 :: rest = dbs
+  have hd0 : d0 ∈ dbs := by rw [← hdbs]; simp
+  have e1 : dbs.any (fun d => d.level != d0.level) = true ↔ ∃ d ∈ dbs, d.level ≠ d0.level := by simp
+  have e3 : dbs.any (fun d => d.fpType != d0.fpType) = true ↔ ∃ d ∈ dbs, d.fpType ≠ d0.fpType := by simp
+  have e4 : dbs.any (fun d => d.array.isNone) = true ↔ ∃ d ∈ dbs, d.array = none := by simp
+  have e5 : (concatKeys dbs).any (fun k => decide ((concatCol dbs k).length ≠ (concatRows dbs).length)) = true ↔
+      ∃ k ∈ concatKeys dbs, (concatCol dbs k).length ≠ (concatRows dbs).length := by simp
+  have e2 : dbs.any (fun d => (d.array.map (fun _ => d.bits)) != (d0.array.map (fun _ => d0.bits))) = true ↔
+      ∃ d ∈ dbs, d.array.map (fun _ => d.bits) ≠ d0.array.map (fun _ => d0.bits) := by simp
+  -- the length check compares `None` with `None` for operands without a matrix
+  have e24 : ((∃ d ∈ dbs, d.array.map (fun _ => d.bits) ≠ d0.array.map (fun _ => d0.bits)) ∨ ∃ d ∈ dbs, d.array = none) ↔
+      ((∃ d ∈ dbs, d.array = none) ∨ ∃ d ∈ dbs, d.bits ≠ d0.bits) := by
+    constructor
+    · rintro (⟨d, hd, hne⟩ | h)
+      · cases ha : d.array with
+        | none => exact Or.inl ⟨d, hd, ha⟩
+        | some a =>
+          cases ha0 : d0.array with
+          | none => exact Or.inl ⟨d0, hd0, ha0⟩
+          | some a0 =>
+            refine Or.inr ⟨d, hd, ?_⟩
+            intro hb; apply hne; simp [ha, ha0, hb]
+      · exact Or.inl h
+    · rintro (h | ⟨d, hd, hne⟩)
+      · exact Or.inr h
+      · cases ha : d.array with
+        | none => exact Or.inr ⟨d, hd, ha⟩
+        | some a =>
+          cases ha0 : d0.array with
+          | none => exact Or.inr ⟨d0, hd0, ha0⟩
+          | some a0 =>
+            refine Or.inl ⟨d, hd, ?_⟩
+            simp [ha, hne]
+  have key : ∀ (c1 c2 c3 c4 c5 : Bool) (d : Db),
+      (∃ e, (if c1 = true then Except.error Err.type else if c2 = true then Except.error Err.type
+          else if c3 = true then Except.error Err.type else if c4 = true then Except.error Err.other
+          else if c5 = true then Except.error Err.value else Except.ok d) = Except.error e) ↔
+        (c1 = true ∨ c2 = true ∨ c3 = true ∨ c4 = true ∨ c5 = true) := by
+    intro c1 c2 c3 c4 c5 d
+    cases c1 <;> cases c2 <;> cases c3 <;> cases c4 <;> cases c5 <;> simp
+  rw [key, e1, e2, e3, e4, e5]
+  generalize (∃ d ∈ dbs, d.level ≠ d0.level) = A at *
+  generalize (∃ d ∈ dbs, d.array.map (fun _ => d.bits) ≠ d0.array.map (fun _ => d0.bits)) = B at *
+  generalize (∃ d ∈ dbs, d.fpType ≠ d0.fpType) = C at *
+  generalize (∃ d ∈ dbs, d.array = none) = D at *
+  generalize (∃ d ∈ dbs, d.bits ≠ d0.bits) = F at *
+  generalize (∃ k ∈ concatKeys dbs, (concatCol dbs k).length ≠ (concatRows dbs).length) = E at *
+  clear e1 e2 e3 e4 e5 key
+  constructor
+  · rintro (h | h | h | h | h)
+    · exact Or.inl h
+    · rcases e24.1 (Or.inl h) with h | h
+      · exact Or.inr (Or.inl h)
+      · exact Or.inr (Or.inr (Or.inl h))
+    · exact Or.inr (Or.inr (Or.inr (Or.inl h)))
+    · exact Or.inr (Or.inl h)
+    · exact Or.inr (Or.inr (Or.inr (Or.inr h)))
+  · rintro (h | h | h | h | h)
+    · exact Or.inl h
+    · exact Or.inr (Or.inr (Or.inr (Or.inl h)))
+    · rcases e24.2 (Or.inr h) with h | h
+      · exact Or.inr (Or.inl h)
+      · exact Or.inr (Or.inr (Or.inr (Or.inl h)))
+    · exact Or.inr (Or.inr (Or.inl h))
+    · exact Or.inr (Or.inr (Or.inr (Or.inr h)))
+
+/-- which exception: a level, length or kind mismatch is a `TypeError`, a database without matrix
+among otherwise compatible ones an `AttributeError` (modelled `.other`), columns that do not add
+up a `ValueError` -/
+theorem concat_error_code (d0 : Db) (rest : List Db) (e : Err) (h : Db.concat (d0 :: rest) = .error e) :
+    e = .type ∨ e = .other ∨ e = .value := by
+  rw [concat_eq] at h
+  split at h
+  · cases h; simp
+  · split at h
+    · cases h; simp
+    · split at h
+      · cases h; simp
+      · split at h
+        · cases h; simp
+        · split at h
+          · cases h; simp
+          · cases h
+
+/-- an accepted concatenation keeps rows and names in operand order and carries the canonical index -/
+theorem concat_ok_rows (d0 : Db) (rest : List Db) (d : Db) (h : Db.concat (d0 :: rest) = .ok d) :
+    d.array = some (concatRows (d0 :: rest)) ∧ d.fpNames = (d0 :: rest).flatMap (·.fpNames) ∧
+      d.namesMap = updateNamesMap [] d.fpNames 0 ∧
+      d.props = (concatKeys (d0 :: rest)).map (fun k => (k, concatCol (d0 :: rest) k)) ∧
+      d.level = d0.level ∧ d.bits = d0.bits ∧ d.fpType = d0.fpType := by
+  rw [concat_eq] at h
+  split at h
+  · cases h
+  · split at h
+    · cases h
+    · split at h
+      · cases h
+      · split at h
+        · cases h
+        · split at h
+          · cases h
+          · cases h; exact ⟨rfl, rfl, rfl, rfl, rfl, rfl, rfl⟩
+
+theorem concat_nil : Db.concat [] = .error .index := rfl
+
+/-! ### the keys of a concatenation, and the refusal under the invariant -/
+
+private theorem addKeys_spec (ps : Cols) : ∀ (acc : List String), acc.Nodup →
+    let r := ps.foldl (fun acc2 c => if acc2.contains c.1 then acc2 else acc2 ++ [c.1]) acc
+    r.Nodup ∧ ∀ k, k ∈ r ↔ k ∈ acc ∨ k ∈ ps.map Prod.fst := by
+  induction ps with
+  | nil => intro acc h; exact ⟨h, by simp⟩
+  | cons c rest ih =>
+    intro acc h
+    simp only [List.foldl_cons]
+    by_cases hc : acc.contains c.1 = true
+    · simp only [hc, if_true]
+      obtain ⟨h1, h2⟩ := ih acc h
+      refine ⟨h1, fun k => ?_⟩
+      rw [h2 k]
+      have : c.1 ∈ acc := by simpa using hc
+      simp only [List.map_cons, List.mem_cons]
+      constructor
+      · rintro (h | h)
+        · exact Or.inl h
+        · exact Or.inr (Or.inr h)
+      · rintro (h | h | h)
+        · exact Or.inl h
+        · exact Or.inl (h ▸ this)
+        · exact Or.inr h
+    · have hcf : acc.contains c.1 = false := by simpa using hc
+      simp only [hcf, Bool.false_eq_true, ↓reduceIte]
+      have hn : c.1 ∉ acc := by simpa using hc
+      have hnd : (acc ++ [c.1]).Nodup := by
+        rw [List.nodup_append]
+        refine ⟨h, by simp, ?_⟩
+        intro a ha b hb
+        simp only [List.mem_singleton] at hb
+        subst hb; intro e; subst e; exact hn ha
+      obtain ⟨h1, h2⟩ := ih (acc ++ [c.1]) hnd
+      refine ⟨h1, fun k => ?_⟩
+      rw [h2 k]
+      simp [or_assoc]
+
+private theorem concatKeys_spec (dbs : List Db) : ∀ (acc : List String), acc.Nodup →
+    let r := dbs.foldl (fun acc d => d.props.foldl (fun acc2 c => if acc2.contains c.1 then acc2 else acc2 ++ [c.1]) acc) acc
+    r.Nodup ∧ ∀ k, k ∈ r ↔ k ∈ acc ∨ ∃ d ∈ dbs, k ∈ d.props.map Prod.fst := by
+  induction dbs with
+  | nil => intro acc h; exact ⟨h, by simp⟩
+  | cons d rest ih =>
+    intro acc h
+    simp only [List.foldl_cons]
+    obtain ⟨a1, a2⟩ := addKeys_spec d.props acc h
+    obtain ⟨h1, h2⟩ := ih _ a1
+    refine ⟨h1, fun k => ?_⟩
+    rw [h2 k, a2 k]
+    simp only [List.mem_cons, exists_eq_or_imp, or_assoc]
+
+/-- the keys of a concatenation are duplicate free … -/
+theorem concatKeys_nodup (dbs : List Db) : (concatKeys dbs).Nodup :=
+  (concatKeys_spec dbs [] (by simp)).1
+
+/-- … and are exactly the keys of the operands -/
+theorem mem_concatKeys (dbs : List Db) (k : String) :
+    k ∈ concatKeys dbs ↔ ∃ d ∈ dbs, k ∈ d.props.map Prod.fst := by
+  have := (concatKeys_spec dbs [] (by simp)).2 k
+  simpa [concatKeys] using this
+
+private theorem colLookup_none_of_not_mem (ps : Cols) (k : String) (h : k ∉ ps.map Prod.fst) :
+    colLookup ps k = none := by
+  induction ps with
+  | nil => rfl
+  | cons c rest ih =>
+    obtain ⟨a, w⟩ := c
+    simp only [List.map_cons, List.mem_cons, not_or] at h
+    have : ¬ a = k := fun e => h.1 e.symm
+    simp [colLookup, this, ih h.2]
+
+/-- for an operand satisfying the invariant, its contribution to column `k` has one cell per row
+if it has the key, and no cell otherwise -/
+private theorem col_contrib (d : Db) (hi : d.Inv) (k : String) :
+    ((colLookup d.props k).getD []).length = if k ∈ d.props.map Prod.fst then d.fpNum else 0 := by
+  by_cases hk : k ∈ d.props.map Prod.fst
+  · obtain ⟨v, hv1, hv2⟩ := colLookup_of_mem_keys d.props k hk
+    simp [hk, hv1, hi.col_length _ hv2]
+  · simp [hk, colLookup_none_of_not_mem d.props k hk]
+
+private theorem concat_lengths (k : String) (dbs : List Db) (hi : ∀ d ∈ dbs, d.Inv) :
+    (concatCol dbs k).length ≤ (concatRows dbs).length ∧
+      ((concatCol dbs k).length = (concatRows dbs).length ↔
+        ∀ d ∈ dbs, d.fpNum = 0 ∨ k ∈ d.props.map Prod.fst) := by
+  induction dbs with
+  | nil => simp [concatCol, concatRows]
+  | cons d rest ih =>
+    obtain ⟨ih1, ih2⟩ := ih (fun d hd => hi d (by simp [hd]))
+    have hc := col_contrib d (hi d (by simp)) k
+    have hr : (d.array.getD []).length = d.fpNum := by
+      unfold Db.fpNum; cases d.array <;> simp
+    simp only [concatCol, concatRows, List.flatMap_cons, List.length_append] at ih1 ih2 ⊢
+    rw [hc, hr]
+    simp only [List.mem_cons, forall_eq_or_imp]
+    by_cases hk : k ∈ d.props.map Prod.fst
+    · simp only [hk, if_true, or_true, true_and]
+      refine ⟨by omega, ?_⟩
+      rw [← ih2]; omega
+    · simp only [hk, if_false, or_false]
+      refine ⟨by omega, ?_⟩
+      rw [← ih2]; omega
+
+/-- **refusal of `concat` for databases satisfying the invariant**: besides the level / matrix /
+length / kind mismatches, exactly when some operand that has rows lacks a property column another
+operand has -/
+theorem concat_refuses_inv (d0 : Db) (rest : List Db) (hi : ∀ d ∈ d0 :: rest, d.Inv) :
+    (∃ e, Db.concat (d0 :: rest) = .error e) ↔
+      (∃ d ∈ d0 :: rest, d.level ≠ d0.level) ∨
+      (∃ d ∈ d0 :: rest, d.array = none) ∨
+      (∃ d ∈ d0 :: rest, d.bits ≠ d0.bits) ∨
+      (∃ d ∈ d0 :: rest, d.fpType ≠ d0.fpType) ∨
+      (∃ d ∈ d0 :: rest, ∃ d' ∈ d0 :: rest, ∃ k ∈ d'.props.map Prod.fst,
+        d.fpNum > 0 ∧ k ∉ d.props.map Prod.fst) := by
+  rw [concat_refuses]
+  have : (∃ k ∈ concatKeys (d0 :: rest), (concatCol (d0 :: rest) k).length ≠ (concatRows (d0 :: rest)).length) ↔
+      (∃ d ∈ d0 :: rest, ∃ d' ∈ d0 :: rest, ∃ k ∈ d'.props.map Prod.fst,
+        d.fpNum > 0 ∧ k ∉ d.props.map Prod.fst) := by
+    constructor
+    · rintro ⟨k, hk, hne⟩
+      obtain ⟨d', hd', hkd'⟩ := (mem_concatKeys _ k).1 hk
+      have h2 := (concat_lengths k (d0 :: rest) hi).2
+      have : ¬ ∀ d ∈ d0 :: rest, d.fpNum = 0 ∨ k ∈ d.props.map Prod.fst := fun h => hne (h2.2 h)
+      obtain ⟨d, hd, hnot⟩ : ∃ d ∈ d0 :: rest, ¬ (d.fpNum = 0 ∨ k ∈ d.props.map Prod.fst) :=
+        Classical.byContradiction fun hcon => this fun d hd =>
+          Classical.byContradiction fun hcon2 => hcon ⟨d, hd, hcon2⟩
+      exact ⟨d, hd, d', hd', k, hkd', by omega, fun h => hnot (Or.inr h)⟩
+    · rintro ⟨d, hd, d', hd', k, hk, hpos, hnk⟩
+      refine ⟨k, (mem_concatKeys _ k).2 ⟨d', hd', hk⟩, ?_⟩
+      intro e
+      rcases (concat_lengths k (d0 :: rest) hi).2.1 e d hd with h | h
+      · omega
+      · exact hnk h
+  rw [this]
+
+private theorem concat_names_length (dbs : List Db) (hi : ∀ d ∈ dbs, d.Inv) :
+    (dbs.flatMap (·.fpNames)).length = (concatRows dbs).length := by
+  induction dbs with
+  | nil => simp [concatRows]
+  | cons x xs ih =>
+    have hx := (hi x (by simp)).names_length
+    have hr : (x.array.getD []).length = x.fpNum := by
+      unfold Db.fpNum; cases x.array <;> simp
+    have := ih (fun d hd => hi d (by simp [hd]))
+    simp only [concatRows, List.flatMap_cons, List.length_append] at this ⊢
+    omega
+
+/-- an accepted concatenation of databases satisfying the invariant satisfies it -/
+theorem concat_inv (d0 : Db) (rest : List Db) (d : Db) (hi : ∀ d ∈ d0 :: rest, d.Inv)
+    (h : Db.concat (d0 :: rest) = .ok d) : d.Inv := by
+  have hne : ¬ ∃ e, Db.concat (d0 :: rest) = .error e := by rw [h]; rintro ⟨e, he⟩; cases he
+  rw [concat_refuses] at hne
+  simp only [not_or] at hne
+  obtain ⟨_, hnone, _, _, hcols⟩ := hne
+  obtain ⟨h1, h2, h3, h4, _⟩ := concat_ok_rows d0 rest d h
+  rw [C05.inv_some h1]
+  generalize d0 :: rest = dbs at *
+  refine ⟨?_, ?_, h3, ?_, ?_⟩
+  · rw [h2]; exact concat_names_length dbs hi
+  · intro c hc
+    rw [h4] at hc
+    obtain ⟨k, hk, rfl⟩ := List.mem_map.1 hc
+    false_or_by_contra
+    rename_i hcon
+    exact hcols ⟨k, hk, hcon⟩
+  · rw [h4]; simpa [List.map_map, Function.comp_def] using concatKeys_nodup dbs
+  · intro hr
+    rw [h4]
+    have : concatKeys dbs = [] := by
+      rw [List.eq_nil_iff_forall_not_mem]
+      intro k hk
+      obtain ⟨x, hx, hkx⟩ := (mem_concatKeys dbs k).1 hk
+      cases ha : x.array with
+      | none => exact hnone ⟨x, hx, ha⟩
+      | some a =>
+        have ha0 : a = [] := by
+          have : x.array.getD [] = [] := by
+            unfold concatRows at hr
+            exact List.flatMap_eq_nil_iff.1 hr x hx
+          simpa [ha] using this
+        have := ((C05.inv_some ha).1 (hi x hx)).2.2.2.2 ha0
+        simp [this] at hkx
+    simp [this]
+
+/-- non-vacuity of `concat_refuses` (both directions): two compatible one-row databases are
+concatenated, rows and names in order; a database of another level, or a fresh database without
+matrix, is refused -/
+example :
+    let f : Fp := ⟨.bit, 8, 0, [1, 2], []⟩
+    let g : Fp := ⟨.bit, 8, 1, [3], []⟩
+    let da := (Db.new .bit 0 none).addOk [⟨f, some "a", [("w", .int 1)]⟩]
+    let db := (Db.new .bit 0 none).addOk [⟨f, some "b", [("w", .int 2)]⟩]
+    let dc := (Db.new .bit 1 none).addOk [⟨g, some "c", [("w", .int 3)]⟩]
+    let dn := (Db.new .bit 0 none).addOk [⟨f, some "d", []⟩]
+    ((Db.concat [da, db]).toOption.map (fun d => (d.fpNames, d.props, d.fpNum))) =
+        some ([some "a", some "b"], [("w", [.int 1, .int 2])], 2) ∧
+      (Db.concat [da, dc]).toOption = none ∧ (∃ d ∈ [da, dc], d.level ≠ da.level) ∧
+      (Db.concat [da, Db.new .bit 0 none]).toOption = none ∧ (∃ d ∈ [da, Db.new .bit 0 none], d.array = none) ∧
+      (Db.concat [da, dn]).toOption = none ∧
+      (∃ k ∈ concatKeys [da, dn], (concatCol [da, dn] k).length ≠ (concatRows [da, dn]).length) := by decide
+
+/-- non-vacuity of `concat_refuses_inv`, `concat_inv`: the operands satisfy the invariant; the one
+with a row but without the column `"w"` is the reason for the refusal -/
+example :
+    let f : Fp := ⟨.bit, 8, 0, [1, 2], []⟩
+    let da := (Db.new .bit 0 none).addOk [⟨f, some "a", [("w", .int 1)]⟩]
+    let dn := (Db.new .bit 0 none).addOk [⟨f, some "d", []⟩]
+    (∀ d ∈ [da, dn], d.Inv) ∧ (∀ d ∈ [da, da], d.Inv) ∧ (Db.concat [da, da]).toOption.isSome ∧
+      (dn.fpNum > 0 ∧ "w" ∈ da.props.map Prod.fst ∧ "w" ∉ dn.props.map Prod.fst) := by
+  refine ⟨?_, ?_, by decide, by decide⟩
+  · intro d hd
+    simp only [List.mem_cons, List.not_mem_nil, or_false] at hd
+    rcases hd with rfl | rfl <;> exact C05.inv_addOk _ _ (C05.inv_new _ _ _)
+  · intro d hd
+    simp only [List.mem_cons, List.not_mem_nil, or_false] at hd
+    rcases hd with rfl | rfl <;> exact C05.inv_addOk _ _ (C05.inv_new _ _ _)
 
 end E3fpVerif.Props.C16
